@@ -25,10 +25,11 @@ from . import c19 as G
 
 ID = "C17"
 READY = True
-LEAN_TARGETS = ["NauyacaVerif.Props.C17"]
+LEAN_TARGETS = ["NauyacaVerif.Props.C17", "NauyacaVerif.Props.Translated"]
 THEOREMS = [f"NauyacaVerif.C17.{t}" for t in (
     "proxy_host_fixed", "router_first_match", "router_default", "prefix_route_matches", "proxy_url", "proxy_url_raw", "proxy_map",
-    "proxy_map_slash", "proxy_roundtrip", "defaultPort_tie", "urlParts_tie", "pathSource_tie", "querySource_tie")]
+    "proxy_map_slash", "proxy_roundtrip", "defaultPort_tie", "urlParts_tie", "pathSource_tie", "querySource_tie")] + ['NauyacaVerif.Translated.upstreamUrl_eq']
+TRANSLATED = ['upstreamUrl']
 EXTRACT = ["defaultPort", "maxRequest"]
 ASSUMPTIONS = [
     "source-shape facts of server/proxy.py (the f-string that builds upstream_url, `path = request.path`, `?{request.query}`) are read with ast on every run into Gen/ProxyGen.lean; the theorems *_tie pin them",
